@@ -40,7 +40,10 @@ Inductive errc :=
 | EBody         (* readFrame: "unable to read frame body" *)
 | ENoCompressor (* readFrame: "no compressor available with compressed frame body" *)
 | EScanCount    (* Iter.Scan: "not enough columns to scan into" *)
-| EFuel.        (* model only: recursion fuel exhausted; proved unreachable *)
+| EUnmarshal    (* marshal.go: any UnmarshalError *)
+| EGoType       (* helpers.go goType: "cannot create Go type for unknown CQL type" *)
+| EFuel         (* model only: recursion fuel exhausted; proved unreachable *)
+| EOther.       (* harness only: an error message of no known class; the model never returns it *)
 
 Inductive crashc :=
 | CGuarded      (* a slice that a preceding length check protects; proved unreachable *)
@@ -48,7 +51,15 @@ Inductive crashc :=
 | CPkeyMake     (* frame.go parsePreparedMetadata: make([]int, pkeyCount) with pkeyCount < 0 *)
 | CScanPanic    (* session.go Iter.Scan -> readColumn -> readInt: panic(error) outside any recover *)
 | CScanDest     (* session.go scanColumn: dest[0] on an empty dest (trailing zero-arity tuple columns) *)
-| CTupleField.  (* marshal.go readBytes: p[:size] / p[size:] without a length check *)
+| CScannerIdx   (* session.go iterScanner.Scan: is.cols[i] with i the destination index, not the column index *)
+| CTupleField   (* marshal.go readBytes: p[:size] / p[size:] without a length check *)
+| CMapKey       (* helpers.go goType: reflect.MapOf with a key type that is not comparable *)
+| CTypeAssert   (* helpers.go goType: t.(CollectionType) on a type that is not one (unreachable from readTypeInfo) *)
+| CListNeg      (* marshal.go unmarshalList: reflect.MakeSlice(t, n, n) with n < 0 *)
+| CDateShort    (* marshal.go unmarshalDate: binary.BigEndian.Uint32(data) with 1..3 bytes *)
+| CTypeIdx      (* metadata.go parseParamNodes: t.input[t.index] with t.index == len(t.input) *)
+| CTypeParams   (* metadata.go parse / asTypeInfo: params[count-1], params[0], params[1] on a shorter list *)
+| CTypeNilName. (* metadata.go parse: param.name dereferenced for a collection parameter without a name *)
 
 Inductive res (A : Type) :=
 | Ok (a : A)
@@ -212,6 +223,19 @@ Fixpoint read_type (fuel : nat) : P tinfo :=
   end.
 (* readTypeInfo recurses only after consuming the two id bytes: depth <= len/2 *)
 Definition read_type_info : P tinfo := fun b => read_type (S (length b)) b.
+
+(* type descriptors as readTypeInfo builds them: collection ids only on TColl, maps and only maps have a key *)
+Fixpoint tinfo_ok (t : tinfo) : Prop :=
+  match t with
+  | TNative typ _ => typ <> K.TypeList /\ typ <> K.TypeSet /\ typ <> K.TypeMap /\ typ <> K.TypeTuple /\ typ <> K.TypeUDT
+  | TColl typ _ key elem =>
+      (typ = K.TypeMap \/ typ = K.TypeList \/ typ = K.TypeSet)
+      /\ match key with Some k => typ = K.TypeMap /\ tinfo_ok k | None => typ <> K.TypeMap end
+      /\ tinfo_ok elem
+  | TTuple _ elems => (fix go (l : list tinfo) : Prop := match l with [] => True | e :: l' => tinfo_ok e /\ go l' end) elems
+  | TUDT _ _ _ fields =>
+      (fix go (l : list (bytes * tinfo)) : Prop := match l with [] => True | f :: l' => tinfo_ok (snd f) /\ go l' end) fields
+  end.
 
 (* ---- result metadata (frame.go:951-1095) ---------------------------------------------------- *)
 Record col := { c_ks : bytes; c_table : bytes; c_name : bytes; c_type : tinfo }.
@@ -472,15 +496,23 @@ Definition read_header (s : bytes) : res (header * bytes) :=
   | Crash c => Crash c
   end.
 
-(* readFrame with no compressor configured; [avail] is what the stream still holds.  The body of an
-   oversized frame is discarded with io.CopyN. *)
-Definition read_frame (length flags : Z) (s : bytes) : res (bytes * bytes) :=
+(* readFrame with no compressor configured, as a function of the declared length, the header flags
+   and the number of bytes the stream still holds.  The body of an oversized frame is discarded
+   with io.CopyN. *)
+Definition read_frame_check (length flags avail : Z) : res unit :=
   if length <? 0 then Err ENegLen
   else if length >? K.maxFrameSize then
-    (if blen s <? length then Err EDiscard else Err ETooBig)
-  else if (0 <? length) && (blen s <? length) then Err EBody
+    (if avail <? length then Err EDiscard else Err ETooBig)
+  else if (0 <? length) && (avail <? length) then Err EBody
   else if has_flag flags K.flagCompress then Err ENoCompressor
-  else Ok (firstn (Z.to_nat length) s, skipn (Z.to_nat length) s).
+  else Ok tt.
+
+Definition read_frame (length flags : Z) (s : bytes) : res (bytes * bytes) :=
+  match read_frame_check length flags (blen s) with
+  | Ok _ => Ok (firstn (Z.to_nat length) s, skipn (Z.to_nat length) s)
+  | Err e => Err e
+  | Crash c => Crash c
+  end.
 
 (* ---- row scanning (session.go:1575-1631, 1504-1526; marshal.go:2094-2128) ------------------- *)
 (* what one destination receives: Unmarshal(info, data, dest) as seen by a destination that records
@@ -528,6 +560,8 @@ Fixpoint scan_cols (cols : list col) (avail : Z) : P (list cell) :=
       else
         match c_type c with
         | TTuple _ elems =>
+            (* Unmarshal(col.TypeInfo, p, dest[:count]) *)
+            if Z.of_nat (length elems) >? avail then crash CScanDest else
             cs <- on_cell (unmarshal_tuple_cells elems) (opt_bytes data) ;;
             more <- scan_cols rest (avail - Z.of_nat (length elems)) ;;
             ret (cs ++ more)
@@ -541,6 +575,113 @@ Fixpoint scan_cols (cols : list col) (avail : Z) : P (list cell) :=
    page: None = returned false because pos >= numRows *)
 Definition scan_row (m : rmeta) (ndest : Z) : P (list cell) :=
   if negb (ndest =? m_actual m) then fail EScanCount else scan_cols (m_cols m) ndest.
+
+(* a sequence of Iter.Scan calls on one iterator (no next page) *)
+Inductive scan_out :=
+| SRow (cells : list cell)            (* Scan returned true *)
+| SFalse (err : option errc)          (* Scan returned false; iter.err afterwards *)
+| SPanic (c : crashc)                 (* Scan (or Scanner.Next / Scanner.Scan) panicked *)
+| SErr (e : errc).                    (* Scanner.Scan returned an error (the row is lost, iteration goes on) *)
+
+Record iter := { it_pos : Z; it_err : option errc; it_buf : bytes }.
+
+Definition iter_scan (m : rmeta) (nrows ndest : Z) (it : iter) : scan_out * iter :=
+  match it_err it with
+  | Some e => (SFalse (Some e), it)
+  | None =>
+      if it_pos it >=? nrows then (SFalse None, it)
+      else match out (scan_row m ndest) (it_buf it) with
+           | Ok (cells, b') => (SRow cells, {| it_pos := it_pos it + 1; it_err := None; it_buf := b' |})
+           | Err e => (SFalse (Some e), {| it_pos := it_pos it; it_err := Some e; it_buf := it_buf it |})
+           | Crash c => (SPanic c, it)
+           end
+  end.
+
+(* Conn.executeQuery with skip-metadata (conn.go:1439-1443): iter.meta = info.response (the result
+   metadata of the PREPARED response); iter.meta.pagingState = copy of the rows frame's *)
+Definition skip_meta_iter (prep_resp rows_meta : rmeta) : rmeta :=
+  {| m_flags := m_flags prep_resp; m_paging := m_paging rows_meta; m_cols := m_cols prep_resp;
+     m_colcount := m_colcount prep_resp; m_actual := m_actual prep_resp |}.
+
+(* k calls; stops after a panic (the caller is gone) *)
+Fixpoint iter_scans (k : nat) (m : rmeta) (nrows ndest : Z) (it : iter) : list scan_out :=
+  match k with
+  | O => []
+  | S k' => let (o, it') := iter_scan m nrows ndest it in
+            match o with
+            | SPanic _ => [o]
+            | _ => o :: iter_scans k' m nrows ndest it'
+            end
+  end.
+
+(* ---- the Scanner API (session.go:1476-1563): Next reads the cells of a row, Scan distributes them ------ *)
+Fixpoint read_cells (cols : list col) : P (list (option bytes)) :=
+  match cols with
+  | [] => ret []
+  | _ :: rest => d <- read_column ;; ds <- read_cells rest ;; ret (d :: ds)
+  end.
+
+(* iterScanner.Scan's loop: scanColumn(is.cols[i], col, dest[i:]) with i the position in dest *)
+Fixpoint scanner_cols (cols : list col) (cells : list (option bytes)) (i : nat) (avail : Z) : res (list cell) :=
+  match cols with
+  | [] => Ok []
+  | c :: rest =>
+      match nth_error cells i with
+      | None => Crash CScannerIdx
+      | Some data =>
+          if avail <=? 0 then Crash CScanDest
+          else
+            match c_type c with
+            | TTuple _ elems =>
+                if Z.of_nat (length elems) >? avail then Crash CScanDest
+                else
+                  match out (unmarshal_tuple_cells elems) (opt_bytes data) with
+                  | Ok (cs, _) =>
+                      match scanner_cols rest cells (i + length elems) (avail - Z.of_nat (length elems)) with
+                      | Ok more => Ok (cs ++ more)
+                      | r => r
+                      end
+                  | Err e => Err e
+                  | Crash k => Crash k
+                  end
+            | t =>
+                match scanner_cols rest cells (S i) (avail - 1) with
+                | Ok more => Ok ({| cell_type := t; cell_data := data |} :: more)
+                | r => r
+                end
+            end
+      end
+  end.
+
+(* one Next() followed, when it returned true, by one Scan(dest...) with ndest recording destinations *)
+Definition scanner_step (m : rmeta) (nrows ndest : Z) (it : iter) : scan_out * iter :=
+  match it_err it with
+  | Some e => (SFalse (Some e), it)
+  | None =>
+      if it_pos it >=? nrows then (SFalse None, it)
+      else match out (read_cells (m_cols m)) (it_buf it) with
+           | Ok (cells, b') =>
+               let it' := {| it_pos := it_pos it + 1; it_err := None; it_buf := b' |} in
+               if negb (ndest =? m_actual m) then (SErr EScanCount, it')
+               else match scanner_cols (m_cols m) cells 0 ndest with
+                    | Ok cs => (SRow cs, it')
+                    | Err e => (SErr e, it')
+                    | Crash c => (SPanic c, it')
+                    end
+           | Err e => (SFalse (Some e), {| it_pos := it_pos it; it_err := Some e; it_buf := it_buf it |})
+           | Crash c => (SPanic c, it)
+           end
+  end.
+
+Fixpoint scanner_steps (k : nat) (m : rmeta) (nrows ndest : Z) (it : iter) : list scan_out :=
+  match k with
+  | O => []
+  | S k' => let (o, it') := scanner_step m nrows ndest it in
+            match o with
+            | SPanic _ => [o]
+            | _ => o :: scanner_steps k' m nrows ndest it'
+            end
+  end.
 
 (* RowData().Columns: tuple columns expand to name[0], name[1], ...; decimal index *)
 Fixpoint dec_digits (fuel : nat) (n : Z) (acc : bytes) : bytes :=
@@ -556,8 +697,72 @@ Fixpoint tuple_names (name : bytes) (i : Z) (elems : list tinfo) : list bytes :=
   | _ :: rest => (name ++ [91] ++ itoa i ++ [93]) :: tuple_names name (i + 1) rest
   end.
 
-Definition row_data_columns (cols : list col) : list bytes :=
-  flat_map (fun c => match c_type c with
-                     | TTuple _ elems => tuple_names (c_name c) 0 elems
-                     | _ => [c_name c]
-                     end) cols.
+(* goType (helpers.go:43): the Go type NewWithError allocates for a column; all the model needs of it
+   is whether it can be a map key.  reflect.MapOf panics on a key type that is not comparable. *)
+Definition comparable_natives : list Z :=
+  [K.TypeVarchar; K.TypeAscii; K.TypeInet; K.TypeText; K.TypeBigInt; K.TypeCounter; K.TypeTime; K.TypeTimestamp;
+   K.TypeBoolean; K.TypeFloat; K.TypeDouble; K.TypeInt; K.TypeSmallInt; K.TypeTinyInt; K.TypeDecimal; K.TypeUUID;
+   K.TypeTimeUUID; K.TypeVarint; K.TypeDate; K.TypeDuration].
+
+Fixpoint go_type (t : tinfo) : res bool :=      (* Ok comparable? *)
+  match t with
+  | TNative typ _ =>
+      if existsb (Z.eqb typ) comparable_natives then Ok true
+      else if typ =? K.TypeBlob then Ok false
+      else if (typ =? K.TypeList) || (typ =? K.TypeSet) || (typ =? K.TypeMap) || (typ =? K.TypeTuple) then Crash CTypeAssert
+      else if typ =? K.TypeUDT then Ok false
+      else Err EGoType
+  | TColl typ _ key elem =>
+      if typ =? K.TypeMap then
+        match key with
+        | None => Crash CTypeAssert      (* not produced by readTypeInfo *)
+        | Some k =>
+            match go_type k with
+            | Ok kc => match go_type elem with
+                       | Ok _ => if kc then Ok false else Crash CMapKey
+                       | r => r
+                       end
+            | r => r
+            end
+        end
+      else match go_type elem with Ok _ => Ok false | r => r end
+  | TTuple _ _ => Ok false
+  | TUDT _ _ _ _ => Ok false
+  end.
+
+Fixpoint go_types (ts : list tinfo) : res unit :=
+  match ts with
+  | [] => Ok tt
+  | t :: rest => match go_type t with
+                 | Ok _ => go_types rest
+                 | Err e => Err e
+                 | Crash c => Crash c
+                 end
+  end.
+
+(* Iter.RowData (helpers.go:325): NewWithError per destination, in column order *)
+Fixpoint row_data (cols : list col) : res (list bytes) :=
+  match cols with
+  | [] => Ok []
+  | c :: rest =>
+      match c_type c with
+      | TTuple _ elems =>
+          match go_types elems with
+          | Ok _ => match row_data rest with
+                    | Ok names => Ok (tuple_names (c_name c) 0 elems ++ names)
+                    | r => r
+                    end
+          | Err e => Err e
+          | Crash k => Crash k
+          end
+      | t =>
+          match go_type t with
+          | Ok _ => match row_data rest with
+                    | Ok names => Ok (c_name c :: names)
+                    | r => r
+                    end
+          | Err e => Err e
+          | Crash k => Crash k
+          end
+      end
+  end.
